@@ -31,6 +31,9 @@ CHECKS = {
  "C07": ("exploration", "runtime monitor: derivation-program model (per-node name, ordered field segments, evaluation moment of each With/WithLazy segment via version-probe marshalers) compared with JSON, console and observer output of every entry",
          "N seeded derivation programs (trees of With/WithLazy/Named/WithOptions(Fields)/Sugar/Desugar and sugared With/WithLazy, 1-20 fields per step incl. namespaces) run over tee(JSON, console, observer) under transparent wrappers; nodes log in random order interleaved with further derivations and all log again at the end, so parents are re-checked after children were derived and used; every entry must carry exactly its own path's name and fields in order, with With fields evaluated at derivation and WithLazy fields at first use.",
          "First use of a WithLazy logger is the first log call through it, the first With-style derivation from it, or either of those on a logger that shares its core (Named/Sugar/Desugar clones).", "3/C07"),
+ "C10": ("fault_enumeration", "runtime fault injection: every fault-capable site of generated field trees is made to fail in turn and the emitted line compared with the expected tree (other fields intact + <key>Error); every outcome vector of failing sinks/cores enumerated over tees, multi-syncers and a user-style wrapper; recording sinks and error output observed",
+         "For each seeded base case each fault site (marshaler error at a chosen position, panicking Stringer/error, unencodable reflected value, failing zap.Stringers element) fails in turn (plus a multi-fault variant); the entry goes through a real Logger and must be one valid line with all other fields exact and a '<key>Error' member where the failing field's AddTo saw the error. All vectors over {ok,(0,err),(short,err),(full,err),sync error,failing core} for 1..3 (quick) / 4 (thorough) destinations are enumerated and rotated over 2 (quick) / 5 (thorough) entries: healthy destinations get the line, failures are named on the error output, the call returns.",
+         "Marshalers that panic (instead of returning an error), short writes with a nil error and the reporting of Sync errors are recorded don't-care zones.", "3/C10"),
 }
 NOT_YET = {}
 props = [json.loads(l) for l in open(os.path.join(V, "properties.jsonl"))]
